@@ -29,7 +29,7 @@ PROPERTY = "C09"
 #: The supported fragment = what the generator emits.  It was widened construct by construct, in this order, while the
 #: tree (with the two proposed C09 fixes) stayed green; see META["rule"] for what is demanded per construct.
 FEATURES = ("arith", "if", "while", "call", "nested-call", "global", "attr", "alias", "obj-param", "early-return", "list",
-            "computed-index", "list-param")
+            "computed-index", "list-param", "joined-if", "branchy-helper", "recursion")
 
 META = {
     "title": "Dynamic slices are sound and checked lines were executed",
@@ -148,11 +148,13 @@ class _Gen:
 
     def call(self, depth: int) -> list:
         usable = [i for i, kind in enumerate(self.helpers)
-                  if kind == "int" or (kind == "obj" and self.objs) or (kind == "lst" and self.lsts)]
+                  if kind in ("int", "rec") or (kind == "obj" and self.objs) or (kind == "lst" and self.lsts)]
         if not usable:
             return self.leaf()
         i = usable[self.pick(len(usable))]
         sub = depth - 1 if "nested-call" in self.feats else 0
+        if self.helpers[i] == "rec":
+            return ["rcall", i, self.expr(sub), self.expr(sub)]
         e = ["call", i, self.expr(sub), self.expr(sub)]
         if self.helpers[i] == "obj":
             e.append(self.objs[self.pick(len(self.objs))])
@@ -193,6 +195,16 @@ class _Gen:
             self.ints, self.objs, self.lsts = saved
         return out
 
+    def joined_if(self, c: list, depth: int) -> list:
+        """``if c: ...; v = e1  else: ...; v = e2`` - both arms end with an assignment to the same variable, which is
+        therefore definitely assigned (and data dependent on the arm taken) afterwards."""
+        then = self.block(self.pick(2), depth + 1)
+        e1 = self.expr(1)
+        els = self.block(self.pick(2), depth + 1)
+        e2 = self.expr(1)
+        name = self.target()
+        return ["if", c, [*then, ["set", name, e1]], [*els, ["set", name, e2]]]
+
     def stmt(self, depth: int) -> list:
         opts = [("set", 5)]
         if depth < 2:
@@ -216,6 +228,8 @@ class _Gen:
             return ["set", self.target(), e]
         if k == "if":
             c = self.cond()
+            if "joined-if" in self.feats and self.pick(2) == 0:
+                return self.joined_if(c, depth)
             then = self.block(1 + self.pick(2), depth + 1, may_return=True)
             els = self.block(self.pick(3), depth + 1) if self.pick(2) == 0 else []
             return ["if", c, then, els]
@@ -260,6 +274,34 @@ class _Gen:
         return ["alias", name, src]
 
 
+def _recursive_helper(draw, feats: frozenset[str], callable_kinds: list[str], k: int) -> dict[str, Any]:
+    """``hK(a0, a1)`` with fuel a1::
+
+        <0..2 statements>; vP = <expr>            locals defined before the recursive call ...
+        if a1 <= 0:
+            return <expr>
+        vR = hK(<expr>, a1 - 1)
+        <0..2 statements>
+        return (vP op vR) op <expr>               ... and used after it
+    """
+    g = _Gen(draw, feats, callable_kinds, "int")
+    body = g.block(g.pick(3), 0)
+    if "joined-if" in feats and g.pick(2):
+        body.append(g.joined_if(g.cond(), 0))   # the pre-call local is defined on different lines in different frames
+        pre = body[-1][2][-1][1]
+    else:
+        e = g.expr(2)
+        pre = g.target()
+        body.append(["set", pre, e])
+    body.append(["if", ["cmp", "<=", ["v", "a1"], ["c", 0]], [["ret", g.expr(1)]], []])
+    arg = g.expr(1)
+    rec = g.target()
+    body.append(["set", rec, ["self", k, arg]])
+    body += g.block(g.pick(3), 0)
+    ret = ["b", OPS[g.pick(3)], ["b", OPS[g.pick(3)], ["v", pre], ["v", rec]], g.expr(1)]
+    return {"kind": "rec", "body": body, "ret": ret}
+
+
 @st.composite
 def programs(draw, feats: frozenset[str]) -> dict[str, Any]:
     helper_kinds: list[str] = []
@@ -271,14 +313,33 @@ def programs(draw, feats: frozenset[str]) -> dict[str, Any]:
             kinds.append("obj")
         if "list-param" in feats and "list" in feats:
             kinds.append("lst")
+        if "recursion" in feats:
+            kinds.append("rec")
         kind = kinds[draw(st.integers(0, len(kinds) - 1))]
+        k = len(helpers)
+        if kind == "rec":
+            helpers.append(_recursive_helper(draw, feats, list(helper_kinds), k))
+            helper_kinds.append(kind)
+            continue
         g = _Gen(draw, feats, list(helper_kinds), kind)
-        body = g.block(draw(st.integers(1, 4)), 0)
-        helpers.append({"kind": kind, "body": body, "ret": g.ret_expr()})
+        if "branchy-helper" in feats and g.pick(3):
+            # a branching helper whose result depends on the arm taken: blocks inside if/else (and loops) get the block
+            # indices that are top-level blocks in its callers
+            body = g.block(g.pick(3), 0)
+            body.append(g.joined_if(g.cond(), 0))
+            joined = body[-1][2][-1][1]
+            body += g.block(g.pick(3), 0)
+            ret = ["b", OPS[g.pick(3)], ["v", joined], g.ret_expr()]
+        else:
+            body = g.block(draw(st.integers(1, 4)), 0)
+            ret = g.ret_expr()
+        helpers.append({"kind": kind, "body": body, "ret": ret})
         helper_kinds.append(kind)
     g = _Gen(draw, feats, helper_kinds)
     body = g.block(draw(st.integers(3, 10)), 0)
     ret = g.ret_expr()
+    if helper_kinds and "branchy-helper" in feats and g.pick(2):
+        ret = ["b", OPS[g.pick(3)], g.call(1), ret]  # a call in the last top-level block of the caller
     return {
         "program": {"globals": [draw(st.integers(-2, 6)), draw(st.integers(-2, 6))], "helpers": helpers,
                     "main": {"body": body, "ret": ret}, "args": [draw(st.integers(-2, 5)), draw(st.integers(-2, 5))]},
@@ -361,8 +422,11 @@ def _child(case: dict[str, Any]) -> dict[str, Any]:
         with open(path, "w") as fh:
             fh.write(lay["source"])
         args = [int(a) for a in model["args"]]
+        try:
+            oracle = dyndep.interpret(model, lay, fuel=3000)
+        except dyndep.TooLong:
+            return {"skipped": "more than 3000 statement instances"}
         truth = _ground_truth(lay["source"], path, args)
-        oracle = dyndep.interpret(model, lay)
         if oracle["value"] != truth["value"]:
             raise HarnessError(f"interpreter returned {oracle['value']}, CPython {truth['value']}\n{lay['source']}")
         if oracle["executed"] != truth["lo"]:
@@ -468,6 +532,14 @@ def _constructs(model: dict[str, Any]) -> set[str]:
             if e[2][0] != "c":
                 found.add("computed-index")
                 ex(e[2])
+        elif e[0] == "self":
+            found.add("recursion")
+            ex(e[2])
+        elif e[0] == "rcall":
+            found.add("call")
+            found.add("call-of-recursive-helper")
+            ex(e[2])
+            ex(e[3])
         elif e[0] == "call":
             found.add("call")
             for a in (e[2], e[3]):
@@ -537,6 +609,10 @@ def _analyse(case: dict[str, Any], res: dict[str, Any], out: Outcome) -> None:
     if "inconclusive" in res:
         out.inconclusive = res["inconclusive"]
         return
+    if "skipped" in res:
+        out.labels.append("skipped:" + res["skipped"])
+        out.excluded = 1
+        return
     for sig, detail in res["fails"]:
         out.fail(sig, f"{detail}\ncase={case}")
     if res.get("aborted"):
@@ -568,7 +644,7 @@ def _analyse(case: dict[str, Any], res: dict[str, Any], out: Outcome) -> None:
     out.nontrivial = len(deps) >= 3 and len(outside) >= 1
     out.labels.append(f"mode:{case['mode']}")
     out.labels += sorted("construct:" + c for c in _constructs(case["program"]))
-    for key in ("calls", "iterations", "heap_reads", "heap_writes", "early_returns"):
+    for key in ("calls", "iterations", "heap_reads", "heap_writes", "early_returns", "recursive_calls"):
         if stats.get(key):
             out.labels.append(f"dynamic:{key}")
     out.labels.append("slice-size:" + ("1-2" if len(deps) < 3 else "3-7" if len(deps) < 8 else "8-15" if len(deps) < 16 else "16+"))
